@@ -252,7 +252,7 @@ static int cmp_sz(const void* a, const void* b) { size_t x = *(const size_t*)a, 
 static void sweep_case(int kind, unsigned long long iseed, size_t n, int entry, const P* p, int tier, unsigned caseId, size_t startCap)
 {
     size_t const bound = ZSTD_compressBound(n);
-    size_t caps[1400]; size_t nc = 0, i;
+    static size_t caps[26000]; size_t nc = 0, i;
     size_t csize, hs = 0, total = 0, bsmax, minok = (size_t)-1, maxfail = (size_t)-1; int haveFail = 0;
     int chk = 0; unsigned long long lastHash = 0; size_t lastRet = (size_t)-1;
     size_t nonmono = 0; size_t firstNonmono = 0;
@@ -272,10 +272,11 @@ static void sweep_case(int kind, unsigned long long iseed, size_t n, int entry, 
     if (analyze_frame(g_out, csize, &hs, &chk, &total) || total != n) { bad("ample-output-not-decodable-by-bufferless-api", bound + 64, csize); return; }
 
     /* capacities: header area, every wire-block edge, every raw-model block edge, final size, bound */
-#define ADD(v) do { long long v_ = (long long)(v); if (v_ >= 0 && (size_t)v_ <= bound + 3 && nc < 1390) caps[nc++] = (size_t)v_; } while (0)
+#define ADD(v) do { long long v_ = (long long)(v); if (v_ >= 0 && (size_t)v_ <= bound + 3 && nc < 25990) caps[nc++] = (size_t)v_; } while (0)
     for (i = 0; i <= 26; i++) ADD(i);
     if (p->tcbs) for (i = 27; i <= 330; i++) ADD(i);          /* super-block writers: dense small capacities */
     if (entry == E_SEQ) for (i = 27; i <= 48; i++) ADD(i);
+    if (csize <= (size_t)(tier ? 12000 : 2500)) for (i = 27; i <= csize + 8; i++) ADD(i);   /* small outputs: every capacity */
     { size_t e = hs; size_t stride = g_nbBlocks > 40 ? g_nbBlocks / 40 : 1;
       for (i = 0; i < g_nbBlocks; i++) { e += 3 + g_blocks[i].cs; if (i % stride == 0 || i + 3 > g_nbBlocks) { long long d; for (d = -2; d <= 2; d++) ADD((long long)e + d); ADD((long long)e + 6); } } }
     { size_t e = hs, rem = n; size_t nb = bsmax ? (n + bsmax - 1) / bsmax : 0; size_t stride = nb > 40 ? nb / 40 : 1; size_t k = 0;
@@ -613,7 +614,7 @@ int main(int argc, char** argv)
         int const kind = atoi(argv[2]); unsigned long long const iseed = strtoull(argv[3], NULL, 10); size_t const n = (size_t)strtoull(argv[4], NULL, 10);
         int const entry = atoi(argv[5]);
         P p = mkP(atoi(argv[6]), atoi(argv[7]), atoi(argv[8]), atoi(argv[9]), atoi(argv[10]), atoi(argv[11]), atoi(argv[12]), atoi(argv[13]), atoi(argv[14]), atoi(argv[15]));
-        size_t const cap = (size_t)strtoull(argv[17], NULL, 10); int const placement = argc > 18 ? atoi(argv[18]) : 0; size_t r;
+        size_t const cap = !strcmp(argv[17], "BOUND") ? ZSTD_compressBound((size_t)strtoull(argv[4], NULL, 10)) : (size_t)strtoull(argv[17], NULL, 10); int const placement = argc > 18 ? atoi(argv[18]) : 0; size_t r;
         if (n > maxN) return 2;
         gen_input(g_input, n, kind, iseed);
         if (entry == E_SEQ) prepare_seqs(&p, g_input, n);
